@@ -38,4 +38,6 @@ def extra(rec, res):
 CHECKS = [
     Check("termination", sim_execute([J.judge_c05], J.nontrivial_c05, extra=extra), strategy=worlds, budget={"quick": 3000, "thorough": 60000}),
     Check("zero_runtime", sim_execute([J.judge_c05], J.nontrivial_c05, extra=extra), strategy=zero_runtime_worlds, budget={"quick": 800, "thorough": 15000}),
+    Check("scripted_termination", sim_execute([J.judge_c05], J.nontrivial_c05, extra=extra, max_steps=1500),
+          strategy=lambda tier: specs.scripted_worlds(zero_runtime=True, max_runtime=3, flags=specs.sim_flags(variance=False)), budget={"quick": 600, "thorough": 20000}),
 ]
